@@ -479,7 +479,7 @@ func c04GenIso(s Src) c04IsoCase {
 	var c c04IsoCase
 	names := []string{"fa", "fb", "fc"}
 	for i := 0; i < s.Range(1, 10); i++ {
-		c.Steps = append(c.Steps, c04Compile{Kind: pickOne(s, []string{"fresh", "fresh", "dup", "builtin", "experimental", "permissive", "patch", "plain", "plain", "variadic", "bad"}), Name: pickOne(s, names)})
+		c.Steps = append(c.Steps, c04Compile{Kind: pickOne(s, []string{"fresh", "fresh", "dup", "builtin", "experimental", "permissive", "patch", "plain", "plain", "variadic", "bad", "fresh+exp", "exp+fresh", "fresh+exp"}), Name: pickOne(s, names)})
 	}
 	return c
 }
@@ -531,6 +531,12 @@ func c04RunIso(ctx *Ctx, c c04IsoCase) {
 				return false
 			}
 		}
+		for name := range registered {
+			if _, err := fhirpath.Compile("Patient.name."+name+"(1)", compopts.WithExperimentalFuncs()); err == nil {
+				ctx.Fail("isolation: a function registered in one Compile call resolves in another (with WithExperimentalFuncs)", strings.Join(history, "\n")+"\nthen Compile(\"Patient.name."+name+"(1)\", WithExperimentalFuncs()) succeeded")
+				return false
+			}
+		}
 		if _, err := fhirpath.Compile("Patient.name.given.join(',')"); err == nil {
 			ctx.Fail("isolation: experimental function available without WithExperimentalFuncs", strings.Join(history, "\n"))
 			return false
@@ -544,6 +550,10 @@ func c04RunIso(ctx *Ctx, c c04IsoCase) {
 			switch st.Kind {
 			case "fresh":
 				e, err = fhirpath.Compile("Patient.name."+st.Name+"(1)", compopts.AddFunction(st.Name, c04MyFn))
+			case "fresh+exp":
+				e, err = fhirpath.Compile("Patient.name."+st.Name+"(1)", compopts.AddFunction(st.Name, c04MyFn), compopts.WithExperimentalFuncs())
+			case "exp+fresh":
+				e, err = fhirpath.Compile("Patient.name."+st.Name+"(1)", compopts.WithExperimentalFuncs(), compopts.AddFunction(st.Name, c04MyFn))
 			case "dup":
 				e, err = fhirpath.Compile("Patient.name."+st.Name+"(1)", compopts.AddFunction(st.Name, c04MyFn), compopts.AddFunction(st.Name, c04MyFn))
 			case "builtin":
@@ -568,7 +578,7 @@ func c04RunIso(ctx *Ctx, c c04IsoCase) {
 			return
 		}
 		switch st.Kind {
-		case "fresh":
+		case "fresh", "fresh+exp", "exp+fresh":
 			if err != nil || e == nil {
 				ctx.Fail("isolation: registering a fresh function name fails (a name registered by an earlier call is still present?)", strings.Join(history, "\n"))
 				return
@@ -624,7 +634,7 @@ var _ = proto.Equal
 
 func TestC04(t *testing.T) {
 	r := newRec("C04",
-		"(concurrent) a history is 1..6 compiled expressions (a pool of read-heavy programs using where/select/exists/all/iif/now()/variables/a custom function, plus generated programs), the fixture Patient + 0..2 generated resources shared by all goroutines, 2..16 goroutines each with 1..20 (expression, resource subset, option set) evaluations (60% of them the same expression on the same resource), a drawn start order behind a barrier, GOMAXPROCS ∈ {1,2,4,16} and 0..3 goroutines calling Compile/patch.Compile with AddFunction/WithExperimentalFuncs meanwhile; run in a -race binary; oracle: race detector silent, every concurrent result (rendering and element pointers) equals the same evaluation performed alone beforehand, shared resources unchanged.  (time) instants around epoch/leap day/DST changes/year 9999 in 13 zones: now()/today()/timeOfDay() under OverrideTime, one instant per evaluation spanning ≥ 6 ms with and without override, repeatability.  (tz-matrix) a fixed battery without OverrideTime in child processes with TZ ∈ {UTC, Asia/Kolkata, America/St_Johns, Pacific/Chatham} must render identically.  (compile-isolation) generated histories of 1..10 Compile calls over {fresh/duplicate/built-in/variadic/non-function AddFunction, WithExperimentalFuncs, Permissive, patch.Compile, plain} with the invariant after every step: base table snapshot unchanged, no registered name resolves elsewhere, join only with the experimental option, built-in battery unchanged.  non-trivial = ≥ 2 evaluations of one (expression, resources, options) triple in different goroutines; a history with a registration followed by a plain Compile; distinct = FNV-64 of the history",
+		"(concurrent) a history is 1..6 compiled expressions (a pool of read-heavy programs using where/select/exists/all/iif/now()/variables/a custom function, plus generated programs), the fixture Patient + 0..2 generated resources shared by all goroutines, 2..16 goroutines each with 1..20 (expression, resource subset, option set) evaluations (60% of them the same expression on the same resource), a drawn start order behind a barrier, GOMAXPROCS ∈ {1,2,4,16} and 0..3 goroutines calling Compile/patch.Compile with AddFunction/WithExperimentalFuncs meanwhile; run in a -race binary; oracle: race detector silent, every concurrent result (rendering and element pointers) equals the same evaluation performed alone beforehand, shared resources unchanged.  (time) instants around epoch/leap day/DST changes/year 9999 in 13 zones: now()/today()/timeOfDay() under OverrideTime, one instant per evaluation spanning ≥ 6 ms with and without override, repeatability.  (tz-matrix) a fixed battery without OverrideTime in child processes with TZ ∈ {UTC, Asia/Kolkata, America/St_Johns, Pacific/Chatham} must render identically.  (compile-isolation) generated histories of 1..10 Compile calls over {fresh/duplicate/built-in/variadic/non-function AddFunction, WithExperimentalFuncs, AddFunction combined with WithExperimentalFuncs in either order, Permissive, patch.Compile, plain} with the invariant after every step: base table snapshot unchanged, no registered name resolves elsewhere, join only with the experimental option, built-in battery unchanged.  non-trivial = ≥ 2 evaluations of one (expression, resources, options) triple in different goroutines; a history with a registration followed by a plain Compile; distinct = FNV-64 of the history",
 		"the Go scheduler is not controlled: only interleavings that occur are judged; the race detector flags conflicting unsynchronised accesses that occur in a run even if they did not overlap in time")
 	runProperty(t, r,
 		Stage[c04TZCase]{Name: "tz-matrix", Enum: c04EnumTZ, Run: c04RunTZ},
